@@ -368,6 +368,23 @@ func Solve(file string, tsec int, thorough bool) SolverResult {
 	return res
 }
 
+// runCover: the query asserts only the path condition ("goal false"): unsat means the
+// path condition is contradictory (vacuity). sat / unknown / timeout all count as reachable.
+func runCover(file string) SolverResult {
+	ctx := context.Background()
+	st, _, ms := runOne(ctx, solvers[0], file, 2)
+	res := SolverResult{Solver: "cover:" + st, Ms: ms, All: []string{fmt.Sprintf("z3-new:%s:%dms", st, ms)}}
+	if st == "unsat" {
+		st2, _, ms2 := runOne(ctx, solvers[2], file, 2)
+		res.All = append(res.All, fmt.Sprintf("cvc5:%s:%dms", st2, ms2))
+		res.Status = "vacuous"
+		res.Output = "the assumptions on this path are contradictory (vacuity)"
+		return res
+	}
+	res.Status = "unsat" // reachable: check discharged
+	return res
+}
+
 func trunc(s string, n int) string {
 	if len(s) > n {
 		return s[:n] + "…"
@@ -553,6 +570,12 @@ func Discharge(obs []*Oblig, outDir string, tsec int, thorough bool) {
 			ob.File = fn
 			tw := time.Now()
 			defer func() { ob.WallMs = time.Since(tw).Milliseconds() }()
+			if ob.Cover {
+				// anti-vacuity: the assumptions must be satisfiable; only a refutation fails
+				cr := runCover(fn)
+				ob.Res = cr
+				return
+			}
 			var vts []string
 			if ob.Variants != nil {
 				vts = ob.Variants()
